@@ -570,6 +570,8 @@ func checkC01(p *core.Program, r *core.Report) {
 	c01R8(p, r, e)
 	c01R9(p, r)
 	c01R10(p, r)
+	r.Rule("R11", "failure bubbles from the run that was failed: in the main loop, after failRun(r) on a path that goes round the loop again, the loop's current run is r — the next iteration finds r exited and failed and goes on to r's parent; if the loop stays on another run (the child whose failure is being passed on), the grandparents are never failed and stay active when the sprint ends")
+	c01R11(p, r, e)
 }
 
 func blockLabel(b *ssa.BasicBlock) string {
@@ -1282,4 +1284,126 @@ func c01R10(p *core.Program, r *core.Report) {
 	}
 	r.Check(compared, "R10", "baseRouter.validate/category-exit-among-node-exits", p.Pos(val.Pos()), "Exit.UUID() of the node's exits is compared at "+where,
 		"baseRouter.validate never compares anything with the UUID() of the exits it is given: a category may point at an exit of another node, the run then leaves by an exit that is not on its node and silently completes (the path is no longer a walk in the flow's graph)")
+}
+
+// ---------------------------------------------------------------------------------------------- R11
+
+func c01R11(p *core.Program, r *core.Report, e *engineFns) {
+	fn := e.loop
+	if fn == nil || e.failRun == nil {
+		return
+	}
+	// the loop's current run: the phi in a loop header that merges the flows.Run parameter
+	var cur *ssa.Parameter
+	for _, q := range fn.Params {
+		if core.ShortType(q.Type()) == "flows.Run" {
+			cur = q
+		}
+	}
+	var hdr *ssa.Phi
+	if cur != nil {
+		core.EachInstr(fn, false, func(_ *ssa.Function, in ssa.Instruction) {
+			ph, ok := in.(*ssa.Phi)
+			if !ok || hdr != nil || naturalLoopBody(ph.Block()) == nil {
+				return
+			}
+			for _, ed := range ph.Edges {
+				if ed == ssa.Value(cur) {
+					hdr = ph
+				}
+			}
+		})
+	}
+	if hdr == nil {
+		r.Unknown("R11", "continueUntilWait/current-run-variable", p.Pos(fn.Pos()), "the loop variable that holds the current run was not found (no loop-header phi merges the flows.Run parameter)")
+		return
+	}
+	strip := func(v ssa.Value) ssa.Value {
+		for {
+			switch x := v.(type) {
+			case *ssa.ChangeInterface:
+				v = x.X
+				continue
+			case *ssa.MakeInterface:
+				v = x.X
+				continue
+			}
+			return core.StripConv(v)
+		}
+	}
+	n := 0
+	for _, cs := range core.Calls(fn, false) {
+		if cs.Common().StaticCallee() != e.failRun || len(cs.Common().Args) < 2 {
+			continue
+		}
+		failed := strip(cs.Common().Args[1])
+		bad := ""
+		nPaths := 0
+		var path []*ssa.BasicBlock
+		var walk func(b *ssa.BasicBlock)
+		walk = func(b *ssa.BasicBlock) {
+			if bad != "" || nPaths > 2000 {
+				return
+			}
+			for _, q := range path {
+				if q == b {
+					return
+				}
+			}
+			path = append(path, b)
+			defer func() { path = path[:len(path)-1] }()
+			for _, sc := range b.Succs {
+				if sc != hdr.Block() {
+					walk(sc)
+					continue
+				}
+				// round the loop again: which run does the header see on this path
+				nPaths++
+				idx := -1
+				for i, pr := range sc.Preds {
+					if pr == b {
+						idx = i
+					}
+				}
+				v := hdr.Edges[idx]
+				for {
+					ph, ok := v.(*ssa.Phi)
+					if !ok {
+						break
+					}
+					k := -1
+					for i, q := range path {
+						if q == ph.Block() {
+							k = i
+						}
+					}
+					if k < 1 {
+						break // merged before the failRun call: whatever it is, it was so at the call
+					}
+					pi := -1
+					for i, pr := range ph.Block().Preds {
+						if pr == path[k-1] {
+							pi = i
+						}
+					}
+					if pi < 0 {
+						break
+					}
+					v = ph.Edges[pi]
+				}
+				if strip(v) != failed {
+					bad = fmt.Sprintf("the loop goes on with %s after failing %s", canonShort(strip(v)), canonShort(failed))
+				}
+			}
+		}
+		walk(cs.Instr.Block())
+		if nPaths == 0 {
+			continue // the call is followed by a return on every path
+		}
+		n++
+		r.Check(bad == "" && nPaths <= 2000, "R11", fmt.Sprintf("continueUntilWait/failRun#%d/loop-continues-from-failed-run", n), p.Pos(cs.Pos()), fmt.Sprintf("%d path(s) back to the loop header carry the failed run", nPaths),
+			"after failRun the main loop does not continue from the run it failed ("+bad+"): the failure is not passed on to that run's parent, and an ancestor stays active after the sprint")
+	}
+	r.Count("failrun_sites_in_loop", n)
+	r.Require("failrun_sites_in_loop", n, 1)
 }
